@@ -25,12 +25,28 @@ def main():
         print("no check for", pid)
         return 2
     name = "checks." + os.path.basename(mods[0])[:-3]
-    mod = importlib.import_module(name)
     rep = None
     if a.replay:
         with open(a.replay) as f:
             rep = json.load(f)["replay"]
-    rc = mod.main(a.tier, rep)
+    try:
+        mod = importlib.import_module(name)
+        rc = mod.main(a.tier, rep)
+    except BaseException as ex:      # noqa
+        # the check itself fell over (on a changed tree: the library failed in a way no oracle anticipated).  That is a
+        # failed check, reported through the interface (exit 1 + VIOLATION line) with the traceback as the artefact.
+        import traceback
+        tb = traceback.format_exc()
+        sys.stderr.write(tb)
+        d = os.environ.get("VERIF_REPLAY_DIR", os.path.join(HERE, "replays"))
+        os.makedirs(d, exist_ok=True)
+        path = os.path.join(d, "%s-check-crashed.json" % pid)
+        with open(path, "w") as f:
+            json.dump({"property": pid, "signature": "check-crashed:%s" % type(ex).__name__, "text": tb[-4000:], "replay": None,
+                       "tier": a.tier}, f, indent=1)
+        print("violation detail: check-crashed:%s :: %s" % (type(ex).__name__, tb.strip().splitlines()[-1][:300]))
+        print("VIOLATION property=%s replay=%s" % (pid, path))
+        rc = 1
     sys.stdout.flush()
     return rc
 
